@@ -127,6 +127,25 @@ func RunMatrixEstimators(c *core.Ctx, checkEM bool) {
 	if checkEM {
 		steps = t.Range(2, 8)
 	}
+	// estimator options
+	optE, optW := !t.Bool(1, 5), !t.Bool(1, 5)
+	chunk := 0
+	if t.Bool(1, 3) {
+		chunk = t.Range(1, 4)
+	}
+	withOptions := func(e st.MatrixEstimator, err error) (st.MatrixEstimator, error) {
+		switch x := e.(type) {
+		case *me.MixtureEstimator:
+			if x != nil {
+				x.OptimizeEmissions, x.OptimizeWeights = optE, optW
+			}
+		case *me.HmmEstimator:
+			if x != nil {
+				x.OptimizeEmissions, x.ChunkSize = optE, chunk
+			}
+		}
+		return e, err
+	}
 	switch kind {
 	case 0:
 		what = fmt.Sprintf("matrix:vector-id(%dx%d,%s)", rows, cols, []string{"normal", "categorical"}[emis])
@@ -140,7 +159,7 @@ func RunMatrixEstimators(c *core.Ctx, checkEM bool) {
 					*tr = append(*tr, likelihood)
 				}
 			}}
-			return me.NewMixtureEstimator([]float64{1, 2}, []st.MatrixEstimator{mkId(-1, rows), mkId(1, rows)}, math.Inf(-1), steps, hook)
+			return withOptions(me.NewMixtureEstimator([]float64{1, 2}, []st.MatrixEstimator{mkId(-1, rows), mkId(1, rows)}, math.Inf(-1), steps, hook))
 		}
 	case 4:
 		// nested EM: a matrix HMM whose emissions are vector mixtures (each
@@ -161,8 +180,8 @@ func RunMatrixEstimators(c *core.Ctx, checkEM bool) {
 				}
 				return m
 			}
-			return me.NewHmmEstimator(ad.NewDenseFloat64Vector([]float64{0.5, 0.5}), ad.NewDenseFloat64Matrix([]float64{0.75, 0.25, 0.375, 0.625}, 2, 2), nil, nil, nil,
-				[]st.VectorEstimator{mkMix(-2), mkMix(2)}, math.Inf(-1), steps, hook)
+			return withOptions(me.NewHmmEstimator(ad.NewDenseFloat64Vector([]float64{0.5, 0.5}), ad.NewDenseFloat64Matrix([]float64{0.75, 0.25, 0.375, 0.625}, 2, 2), nil, nil, nil,
+				[]st.VectorEstimator{mkMix(-2), mkMix(2)}, math.Inf(-1), steps, hook))
 		}
 	case 3:
 		// shape HMM: every emission is a matrix distribution over a window of
@@ -210,8 +229,8 @@ func RunMatrixEstimators(c *core.Ctx, checkEM bool) {
 					*tr = append(*tr, likelihood)
 				}
 			}}
-			return me.NewHmmEstimator(ad.NewDenseFloat64Vector(append([]float64(nil), pi...)), ad.NewDenseFloat64Matrix(append([]float64(nil), trm...), m, m), nil, nil, nil,
-				[]st.VectorEstimator{mkRow(-1), mkRow(1)}, math.Inf(-1), steps, hook)
+			return withOptions(me.NewHmmEstimator(ad.NewDenseFloat64Vector(append([]float64(nil), pi...)), ad.NewDenseFloat64Matrix(append([]float64(nil), trm...), m, m), nil, nil, nil,
+				[]st.VectorEstimator{mkRow(-1), mkRow(1)}, math.Inf(-1), steps, hook))
 		}
 	}
 	for r := 0; r < nrec; r++ {
@@ -236,7 +255,7 @@ func RunMatrixEstimators(c *core.Ctx, checkEM bool) {
 	if kind == 0 && t.Bool(1, 2) {
 		gamma = drawGamma(t, len(recs))
 	}
-	c.Logf("%s on %d records, log-weights %v, pool %s", what, len(recs), vecOf(gamma), cfg)
+	c.Logf("%s on %d records, log-weights %v, OptimizeEmissions=%v OptimizeWeights=%v ChunkSize=%d, pool %s", what, len(recs), vecOf(gamma), optE, optW, chunk, cfg)
 	for i, r := range recs {
 		n, k := r.Dims()
 		c.Logf("  record %d (%dx%d): %v", i, n, k, matOf(r))
